@@ -468,6 +468,11 @@ def gen_cases(rng, tier):
         for (chunk, zero) in modes:
             for k in range(0, n + 3):
                 cases.append("w %s %d %d %d %s %s" % (entry, k, chunk, zero, spec, m))
+        if entry in MULTI or entry == "bld":
+            # transient fault: the device fails once at byte k and accepts data again afterwards - anything it
+            # receives then was written after the failure (not a prefix of the encoding any more)
+            for k in range(0, n + 1):
+                cases.append("wt %s %d %d %d %s %s" % (entry, k, 1 << 20, 0, spec, m))
         if entry in ("eth", "sll"):
             for nn in range(0, n + 3):
                 cases.append("ws %s %d %s %s" % (entry, nn, spec, m))
@@ -535,7 +540,7 @@ def compare(ctx, cases, impl, model_lines):
     for i, c in enumerate(cases):
         a = c.split()
         tag = a[0]
-        key = tag + (":" + a[1].split(":")[0] if tag in ("w", "ws", "r") else "")
+        key = tag + (":" + a[1].split(":")[0] if tag in ("w", "wt", "ws", "r") else "")
         bump(key)
         m = s = None
         if model_lines is not None:
@@ -559,7 +564,7 @@ def compare(ctx, cases, impl, model_lines):
             elif tag == "lr" and m is not None and ("len:" in m or "io:" in m):
                 nt = True
             nontriv += nt
-        if tag in ("w", "wsb", "ws") and len(a) > 3:
+        if tag in ("w", "wt", "wsb", "ws") and len(a) > 3:
             wfp = (wf_problem(a[1] if tag != "wsb" else "bld", a[-1]) if not a[-1].startswith("UNDECODABLE")
                    else "reference pass failed (%s)" % a[-1][12:])
             if wfp:
@@ -573,6 +578,15 @@ def compare(ctx, cases, impl, model_lines):
                 orc.append((i, "%s: %s" % (prof, il[:200]), None))
                 continue
             ex = _kv(extra)
+            if tag == "wt":
+                bump("wt.result." + base.split()[0].split(":")[0])
+                if ex.get("calls", "0") != "0":
+                    orc.append((i, "%s: device failed at byte %s and the writer kept writing: %s more write call(s), bytes %s "
+                                "arrived after the failure - what the device holds is not a prefix of the encoding"
+                                % (prof, a[2], ex.get("calls"), ex.get("after")), None))
+                if s is not None and s != "-" and (s.startswith("io") != base.startswith("io:")):
+                    orc.append((i, "%s: device failing once at byte %s: result '%s' but the device reported the failure: %s"
+                                % (prof, a[2], base.split()[0], s.split()[0]), None))
             if tag == "w":
                 bump("w.result." + base.split()[0].split(":")[0])
                 got = _unhex(_kv(base).get("got", "-"))
